@@ -5,6 +5,9 @@ import json, subprocess
 HOOK_COMMITS = []  # filled in as hook commits are made in /repo
 
 CHECKS = {
+ "C13": dict(cat="exploration", technique="runtime metamorphic monitor: rows of the query with HAVING compared with a typed reference filter of the rows the real engine returns without it",
+   text="Sampled: 3.8 k (quick) to 48 k (thorough) base-query x expression pairs; expressions of every accepted form up to nesting 4 over operands of every kind, including constants of another kind than the column and aggregate outputs after GROUP BY.",
+   note="Order comparisons are generated for numbers, times and text only; errors are accepted only for kind-mismatched comparisons; forms the expression builder rejects at parse time are counted, not judged.", ref="DESIGN.md §5 C13"),
  "C12": dict(cat="exploration", technique="runtime metamorphic monitor: the same query with and without ORDER BY / LIMIT run through the real engine; sortedness, permutation, prefix and rejection oracles on the observed row sequences",
    text="Sampled: 2.5 k (quick) to 40 k (thorough) base queries x ORDER BY lists x LIMIT values (valid and invalid) over dense data with negative/fractional numbers and anchors in two zones, incl. plain single-clause queries (limit push-down) and row-dropping clauses.",
    note="Columns mixing kinds carry no ordering requirement; the exclusion check is skipped when a key column shows one value under two spellings (counted).", ref="DESIGN.md §5 C12"),
